@@ -100,9 +100,15 @@ def make_index(kind, n):
         # monotonic but NOT unique: tied timestamps (event data at coarse resolution)
         base = pd.date_range("2022-05-01", periods=(n + 2) // 3 + 1, freq="s")
         return pd.DatetimeIndex(np.repeat(base.values, 3)[:n])
+    if kind == "int_ties":
+        # monotonic, not unique, plain integer labels (e.g. a coarse counter): 3 3 3 4 4 4 ...
+        return pd.Index(np.repeat(np.arange(3, 3 + (n + 2) // 3 + 1), 3)[:n])
     raise KeyError(kind)
 
 
+# monotonic indexes with repeated labels: accepted by the input validation (only a non-decreasing
+# index is required), so label-based alignment anywhere inside a detector shows on them
+TIED_INDEX_KINDS = ["datetime_ties", "int_ties"]
 COLUMN_KINDS = ["default", "strings", "duplicate", "printsame"]
 
 
